@@ -19,6 +19,11 @@ then / script entries: EFFECTS executed by the handler / by act(), in order (wav
 A step whose script / pending handlers contain a non-send effect is sent to the model as ONE `stepx <prog>` request
 (Core `midStep`, user code interleaved); otherwise as `step` followed by the sends (Core `stepFn`).
 
+Wave 7: ["step", script, "model"] runs the step through Model.run_step(k); ["run", [script, …]] runs len(scripts) steps
+through Model.run() (run_specs(0, R-1, dt), R rounds of round(1/dt) steps; scripts: sends only); script keys "B" / "E":
+sends made by Model.begin_round / end_round; receiver ids may be negative (never an agent) or floats equal to an id
+(2.0 IS id 2); delays may be negative (= no delay); `run_pair` interleaves the operations of two models alive at once.
+
 Extended histories (wave 2b, `run_xhistory`, model requests `x…`): additionally
   ["createT", ty, state, [[state, [names]], ...]]   agent whose initialize() registers exactly this handler table
   ["state", id, st]                                 agent.state = st between steps
@@ -71,6 +76,7 @@ def is_pop_eff(e, in_script=False):
 
 class Sim:
     """The real BPTK_Py model with logging agents."""
+    COUNT = 0
 
     def __init__(self, dt):
         from BPTK_Py import Model, Agent, DataCollector, SimultaneousScheduler
@@ -90,6 +96,9 @@ class Sim:
                     self.state = sname(state)
 
             def on_ev(self, event):
+                if event.data.get("sim") != sim.uid:       # an event that was sent in ANOTHER model
+                    sim.foreign.append((sim.step_no, self.id, event.data.get("seq")))
+                    return
                 sim.handled.append((sim.step_no, self.id, event.data["seq"]))
                 for eff in event.data["then"]:
                     sim.do_effect(self, eff, False)
@@ -103,9 +112,27 @@ class Sim:
                 for eff in sim.script.get(str(self.id), []):
                     sim.do_effect(self, eff, True)
 
+        class LogModel(Model):
+            def begin_round(self, time, sim_round, step):
+                if sim.run_scripts is not None:          # inside Model.run(): one script per step
+                    sim.step_no += 1
+                    sim.run_marks.append(len(sim.issued))
+                    sim.script = sim.run_scripts.pop(0) if sim.run_scripts else {}
+                for eff in sim.script.get("B", []):
+                    sim.do_effect(None, eff, True)
+
+            def end_round(self, time, sim_round, step):
+                for eff in sim.script.get("E", []):
+                    sim.do_effect(None, eff, True)
+
+        Sim.COUNT += 1
+        self.uid = Sim.COUNT
+        self.foreign = []
         self.dt = dt
-        self.m = Model(starttime=0, stoptime=10 ** 6, dt=num(dt), name="c11", scheduler=SimultaneousScheduler(),
-                       data_collector=DataCollector())
+        self.run_scripts = None
+        self.run_marks = []
+        self.m = LogModel(starttime=0, stoptime=10 ** 6, dt=num(dt), name="c11", scheduler=SimultaneousScheduler(),
+                          data_collector=DataCollector())
         for t in TYPES:
             self.m.register_agent_factory(t, (lambda tt: (lambda aid, model, props: LogAgent(aid, model, props, tt)))(t))
         self.nseq = 0
@@ -124,7 +151,7 @@ class Sim:
         from BPTK_Py import Event, DelayedEvent
         seq = self.nseq
         self.nseq += 1
-        data = {"seq": seq, "then": [list(x) for x in then], "exc": exc}
+        data = {"seq": seq, "then": [list(x) for x in then], "exc": exc, "sim": self.uid}
         ev = Event(ename(name), sender, rid, data) if delay is None else DelayedEvent(ename(name), sender, rid, num(delay), data)
         self.sent[seq] = {"rid": rid, "delay": delay, "sent_at": self.step_no, "name": name, "exc": exc}
         self.issued.append((seq, rid, delay))
@@ -155,7 +182,7 @@ class Sim:
         e = norm_eff(eff, in_script)
         k = e[0]
         if k == "send":
-            self.send(agent.id, e[1], e[2], e[3], e[4], e[5])
+            self.send(agent.id if agent is not None else 0, e[1], e[2], e[3], e[4], e[5])
         elif k == "state":
             agent.state = sname(e[1])
             self.trace.append(["state", agent.id, e[1]])
@@ -167,10 +194,11 @@ class Sim:
             self.population(k, *e[1:])
 
     def pending(self):
-        s = {e.data["seq"] for e in self.m.events}
+        mine = lambda evs: {e.data["seq"] for e in evs if e.data.get("sim") == self.uid}
+        s = mine(self.m.events)
         for a in self.m.agents:
-            s |= {e.data["seq"] for e in a.events}
-        s |= {e.data["seq"] for e in self.m.scheduler.delayed_events}
+            s |= mine(a.events)
+        s |= mine(self.m.scheduler.delayed_events)
         return s
 
     def apply(self, op):
@@ -198,13 +226,30 @@ class Sim:
         elif k == "random_events":
             _pyrandom.seed(op[4])
             m.random_events(TYPES[op[1]], op[2], lambda aid: self.make_event(0, aid, op[3], []))
+        elif k == "run":                         # Model.run(): R rounds of round(1/dt) steps
+            spr = round(1 / float(self.dt))
+            n0 = len(self.handled)
+            self.run_scripts, self.run_marks = [dict(x) for x in op[1]], []
+            self.stats_base = len(self.handled)        # scheduler.run() starts with data_collector.reset()
+            m.run_specs(0, len(op[1]) // spr - 1, num(self.dt))
+            try:
+                m.run()
+            finally:
+                self.run_scripts, self.script = None, {}
+                m.run_specs(0, 10 ** 6, num(self.dt))
+                for _, _, q in self.handled[n0:]:
+                    self.thens.pop(q, None)
+            return self.handled[n0:], list(self.run_marks)
         elif k == "step":
             self.script = op[1]
-            before = {e.data["seq"] for e in m.events}
+            before = {e.data["seq"] for e in m.events if e.data.get("sim") == self.uid}
             n0 = len(self.handled)
             self.step_no += 1
             try:
-                m.scheduler.run_step(m, 0, self.step_no - 1, None, True)
+                if len(op) > 2 and op[2] == "model":
+                    m.run_step(self.step_no - 1)
+                else:
+                    m.scheduler.run_step(m, 0, self.step_no - 1, None, True)
             finally:
                 self.script = {}
                 for _, _, q in self.handled[n0:]:
@@ -220,8 +265,16 @@ def frac_str(delay):
     return f"{f.numerator}/{f.denominator}"
 
 
+def mrid(r):
+    """receiver id as the model sees it: an id equal to an integer IS that id (2.0 == 2); a negative or fractional id can
+    never be an agent's: some id that is never handed out"""
+    if r == int(r) and r >= 0:
+        return int(r)
+    return 10 ** 6 + int(abs(r) * 4)
+
+
 def send_line(rid, delay):
-    return f"send {rid} 0" if delay is None else f"sendq {rid} {frac_str(delay)}"
+    return f"send {mrid(rid)} 0" if delay is None else f"sendq {mrid(rid)} {frac_str(delay)}"
 
 
 def eff_token(e, in_script):
@@ -229,7 +282,7 @@ def eff_token(e, in_script):
     e = norm_eff(e, in_script)
     k = e[0]
     if k == "send":
-        return f"s{e[1]}/0" if e[2] is None else f"q{e[1]}/{frac_str(e[2])}"
+        return f"s{mrid(e[1])}/0" if e[2] is None else f"q{mrid(e[1])}/{frac_str(e[2])}"
     if k == "create":
         return f"c{e[1]}"
     if k == "delete":
@@ -244,7 +297,8 @@ def eff_token(e, in_script):
 
 
 def prog_string(script, thens):
-    ents = [f"A{a}=" + "|".join(eff_token(e, True) for e in effs) for a, effs in sorted(script.items(), key=lambda kv: int(kv[0])) if effs]
+    ents = [f"A{a}=" + "|".join(eff_token(e, True) for e in effs)
+            for a, effs in sorted(((a, e) for a, e in script.items() if a.isdigit()), key=lambda kv: int(kv[0])) if effs]
     ents += [f"E{q}=" + "|".join(eff_token(e, False) for e in effs) for q, effs in sorted(thens.items()) if effs]
     return ";".join(ents) or "-"
 
@@ -286,6 +340,32 @@ def run_history(dt, ops):
     """Real code on (dt, ops).
     Returns dict(req, real, viol, steps_started): request lines for the model with the implementation's canonical
     replies, and the violations of the property statement found by the reference check [(key, text)]."""
+    g = run_history_gen(dt, ops)
+    try:
+        while True:
+            next(g)
+    except StopIteration as e:
+        return e.value
+
+
+def run_pair(dt_a, ops_a, dt_b, ops_b):
+    """Two models alive in one process, their operations interleaved one by one (state that should be per model but
+    lives in a class attribute or a module global shows up here). Returns the two result dicts."""
+    gens = [run_history_gen(dt_a, ops_a), run_history_gen(dt_b, ops_b)]
+    res = [None, None]
+    while any(g is not None for g in gens):
+        for i, g in enumerate(gens):
+            if g is None:
+                continue
+            try:
+                next(g)
+            except StopIteration as e:
+                res[i], gens[i] = e.value, None
+    return res
+
+
+def run_history_gen(dt, ops):
+    """generator form of run_history: yields after every operation"""
     sim, sh = Sim(dt), Shadow()
     req, real = ["new", f"dt {frac_str(dt)}"], ["ok", "ok"]
     viol = []
@@ -303,7 +383,11 @@ def run_history(dt, ops):
             if any(is_pop_eff(e, True) for effs in op[1].values() for e in effs) or \
                any(is_pop_eff(e) for effs in sim.thens.values() for e in effs):
                 prog = prog_string(op[1], sim.thens)
+        if k == "run":
+            for j in range(len(op[1])):
+                live_at[sim.step_no + 1 + j] = sh.ids()
         type_ids = sh.of_type(op[1]) if k == "random_events" else None
+        first_step = sim.step_no + 1
         try:
             out = sim.apply(op)
         except Exception as e:          # run_step must not raise on any history
@@ -340,6 +424,17 @@ def run_history(dt, ops):
             dr = ".".join(map(str, draws)) or "-"
             req.append(f"randomeventsq {op[1]} {op[2]} {frac_str(op[3])} {dr}" if op[3] is not None else f"randomevents {op[1]} {op[2]} 0 {dr}")
             real.append("seqs=" + (",".join(f"{s}>{r}" for s, r, _ in sim.issued) or "-"))
+        elif k == "run":
+            hs_all, marks = out
+            marks = marks + [len(sim.issued)]
+            for j in range(len(op[1])):
+                st = first_step + j
+                req.append("step")
+                real.append(f"step={st};h={canon_handled([(a, q) for s2, a, q in hs_all if s2 == st], sent_at)}")
+                for seq, rid, delay in (sim.issued[marks[j]:marks[j + 1]] if j + 1 < len(marks) else []):
+                    req.append(send_line(rid, delay)); real.append(f"seq={seq}")
+            if len(marks) - 1 != len(op[1]):
+                viol.append(("run-steps", f"Model.run() with {len(op[1])} steps planned executed {len(marks) - 1}"))
         elif k == "step":
             hs, gone = out
             for t in sim.trace:                      # what user code did to the population during the step, in order
@@ -355,11 +450,16 @@ def run_history(dt, ops):
                 n_midstep += 1
                 req.append("stepx " + prog)
                 real.append(f"step={sim.step_no};h={canon_handled([(a, s) for _, a, s in hs], sent_at)};"
-                            f"e={','.join(f'{s}>{r}' for s, r, _ in sim.issued) or '-'};"
+                            f"e={','.join(f'{s}>{mrid(r)}' for s, r, _ in sim.issued) or '-'};"
                             f"a={','.join(str(a.id) for a in sim.m.agents) or '-'};stuck=0")
                 if [a.id for a in sim.m.agents] != sh.ids():
                     viol.append(("population", f"step {sim.step_no}: live ids {[a.id for a in sim.m.agents]} after user code did {sim.trace}; expected {sh.ids()}"))
+        yield
     # ---- reference check of the statement on the handler log
+    if sim.foreign:
+        st, agent, seq = sim.foreign[0]
+        viol.append(("foreign-event", f"step {st}: agent {agent} of this model handled event #{seq} that was sent in another model "
+                                      f"alive in the same process ({len(sim.foreign)} such events)"))
     by_seq = {}
     pending = sim.pending()
     for st, agent, seq in sim.handled:
@@ -498,6 +598,14 @@ def probe():
     f["delayStepsExact"] = r is not None and not any(k == "delay-steps" for k, _ in r["viol"]) and r["nhandled"] == 1
     r = handled("1", [["create", 0], ["send", 0, "1", []], ["send", 0, "1", []], ["send", 0, "2", []], ["send", 0, "2", []]] + [["step", {}]] * 4)
     f["requeueFifo"] = r is not None and not any(k == "same-step-order" for k, _ in r["viol"]) and r["nhandled"] == 4
+    r = handled("1", [["create", 0]] * 3 + [["send", -1, None, []], ["send", -2, "1", []], ["send", 2.0, None, []]] + [["step", {}]] * 3)
+    f["negativeIdDropped"] = r is not None and not r["viol"] and r["nhandled"] == 1
+    try:                                             # two models alive at once: B must not see A's event
+        ra, rb = run_pair("1", [["create", 0], ["send", 0, None, []], ["step", {}], ["step", {}]],
+                          "1", [["create", 0], ["step", {}], ["step", {}], ["step", {}]])
+        f["queuePerModel"] = not ra["viol"] and not rb["viol"] and ra["nhandled"] == 1 and rb["nhandled"] == 0
+    except Exception:
+        f["queuePerModel"] = False
     return f
 
 
@@ -528,10 +636,15 @@ def gen_lean(f):
         body += "theorem pinned_float_countdown : type_of% C11_witness_float_countdown := C11_witness_float_countdown\n"
     if not f["requeueFifo"]:
         body += "theorem pinned_requeue_reversal : type_of% C11_witness_requeue_reversal := C11_witness_requeue_reversal\n"
+    if not f["negativeIdDropped"]:
+        body += "theorem pinned_negative_index : type_of% C11_witness_negative_index := C11_witness_negative_index\n"
+    if not f["queuePerModel"]:
+        body += "theorem pinned_shared_queue : type_of% C11_witness_shared_queue := C11_witness_shared_queue\n"
     return ("import Bptk.Props.C11\n/-! GENERATED by harness/props/c11.py from /repo on every run — do not edit. -/\n"
             "namespace Bptk.C11.Gen\n"
             f"def facts : Facts := {{ routesById := {b(f['routesById'])}, delayStepsExact := {b(f['delayStepsExact'])}, "
-            f"requeueFifo := {b(f['requeueFifo'])} }}\n" + body +
+            f"requeueFifo := {b(f['requeueFifo'])}, negativeIdDropped := {b(f['negativeIdDropped'])}, "
+            f"queuePerModel := {b(f['queuePerModel'])} }}\n" + body +
             "theorem holds : C11_full := C11_full_proved\n#print axioms holds\n"
             "theorem holds_midstep : type_of% @C11_midstep := @C11_midstep\n#print axioms holds_midstep\n"
             "theorem holds_extended : type_of% @C11_x_partial := @C11_x_partial\n#print axioms holds_extended\n"
@@ -539,6 +652,7 @@ def gen_lean(f):
             "theorem holds_float_conversion : type_of% @delay_float_steps := @delay_float_steps\n#print axioms holds_float_conversion\n"
             "theorem holds_float_countdown : type_of% @floatKeep_exact := @floatKeep_exact\n#print axioms holds_float_countdown\n"
             "theorem float_budget_doubles : type_of% stepBudget_double_arith := stepBudget_double_arith\n#print axioms float_budget_doubles\n"
+            "theorem holds_two_models : type_of% @C11_two_models := @C11_two_models\n#print axioms holds_two_models\n"
             "end Bptk.C11.Gen\n")
 
 
@@ -551,7 +665,8 @@ def delays_for(dt):
     def dec(fr):
         s = f"{float(fr):.6f}".rstrip("0")
         return s + "0" if s.endswith(".") else s
-    out = [None, None, "0", dec(d), dec(2 * d), dec(3 * d), dec(d / 2), dec(d * 3 / 2), dec(5 * d), "1.0", "1", "0.3", "0.7", "2"]
+    out = [None, None, "0", dec(d), dec(2 * d), dec(3 * d), dec(d / 2), dec(d * 3 / 2), dec(5 * d), "1.0", "1", "0.3", "0.7", "2",
+           "-1", "-0.5", "0.0"]                     # wave 7: negative / float zero delays are "no delay"
     return out
 
 
@@ -560,13 +675,32 @@ def rand_history(rng, dt):
     ds = delays_for(dt)
     def target():
         ids = sh.ids()
+        k = rng.below(20)
+        if k == 0:
+            return -rng.range(1, 3)                # wave 7: a negative id is never an agent's (agents[-1] is the last agent)
+        if k == 1 and ids:
+            return float(rng.choice(ids))          # wave 7: 2.0 is the id 2
         if ids and rng.chance(4, 5):
             return rng.choice(ids)
         return rng.below(sh.next + 2)           # deleted, never created, or by chance alive
     def then():
         return [[target(), rng.choice(ds)] for _ in range(rng.below(3))] if rng.chance(1, 4) else []
+    def act_script():
+        script = {}
+        for i in sh.ids():
+            if rng.chance(1, 4):
+                script[str(i)] = [[target(), rng.choice(ds), then()] for _ in range(rng.range(1, 3))]
+        for hook in ("B", "E"):                    # wave 7: sends from Model.begin_round / end_round
+            if rng.chance(1, 8):
+                script[hook] = [["send", target(), rng.choice(ds), []] for _ in range(rng.range(1, 2))]
+        return script
+    spr = round(1 / float(dt))
     for _ in range(rng.range(6, 45)):
         r = rng.below(20)
+        if r == 19 and rng.chance(1, 3):           # wave 7: a whole Model.run()
+            op = ["run", [act_script() for _ in range(spr * rng.range(1, 2))]]
+            ops.append(op)
+            continue
         if r < 3 or (not sh.live and r < 10):
             op = ["create", rng.below(2)]
         elif r < 5 and sh.live:
@@ -579,15 +713,64 @@ def rand_history(rng, dt):
         elif r < 12:
             op = ["broadcast", rng.below(2), rng.choice(ds)]
         else:
-            script = {}
-            for i in sh.ids():
-                if rng.chance(1, 4):
-                    script[str(i)] = [[target(), rng.choice(ds), then()] for _ in range(rng.range(1, 3))]
-            op = ["step", script]
+            op = ["step", act_script()] + (["model"] if rng.chance(1, 3) else [])      # wave 7: through Model.run_step
         sh.apply(op)
         ops.append(op)
     ops += [["step", {}]] * rng.range(2, 12)
     return ops
+
+
+def row_counts(ops, dt, acc):
+    """distribution of the generated inputs over the rows of the wave-7 coverage table (evidence notes)"""
+    def bump(k):
+        acc[k] = acc.get(k, 0) + 1
+    def rid_kind(r):
+        if r < 0:
+            return "receiver:negative"
+        if isinstance(r, float):
+            return "receiver:float-equal-to-id"
+        return "receiver:int"
+    def delay_kind(d):
+        if d is None:
+            return "delay:none(Event)"
+        f = Fraction(d)
+        if f < 0:
+            return "delay:negative"
+        if f == 0:
+            return "delay:zero-float" if "." in d else "delay:zero-int"
+        q = f / Fraction(dt)
+        return ("delay:multiple-of-dt" if q.denominator == 1 else "delay:non-multiple") + ("-float" if "." in d else "-int")
+    def eff(e, in_script, where):
+        e = norm_eff(e, in_script)
+        if e[0] == "send":
+            bump(rid_kind(e[1])); bump(delay_kind(e[2])); bump("send-from:" + where)
+            for t in e[3]:
+                eff(t, False, "handler")
+            if e[4]:
+                bump("event-name:other")
+            if e[5]:
+                bump("handler-raises:" + e[5])
+        else:
+            bump(f"{e[0]}-from:" + where)
+    for op in ops:
+        k = op[0]
+        if k == "send":
+            eff(op, True, "between-steps")
+        elif k == "step":
+            bump("step-via:" + ("Model.run_step" if len(op) > 2 and op[2] == "model" else "scheduler.run_step"))
+            for a, effs in op[1].items():
+                for e in effs:
+                    eff(e, True, {"B": "begin_round", "E": "end_round"}.get(a, "act"))
+        elif k == "run":
+            bump("step-via:Model.run"); acc["steps-inside-Model.run"] = acc.get("steps-inside-Model.run", 0) + len(op[1])
+            for sc in op[1]:
+                for a, effs in sc.items():
+                    for e in effs:
+                        eff(e, True, {"B": "begin_round", "E": "end_round"}.get(a, "act"))
+        elif k in ("broadcast", "random_events"):
+            bump(k + "-between-steps"); bump(delay_kind(op[2] if k == "broadcast" else op[3]))
+        elif k in ("delete", "configure", "reset", "create", "createT", "state"):
+            bump(k + "-between-steps")
 
 
 def rand_midstep_history(rng, dt):
@@ -910,6 +1093,10 @@ def run(chk):
             cases.append((dt, reconf_history(rng, dt), "rand-reconf", "base"))
         else:
             cases.append((dt, rand_xhistory(rng, dt), "rand-x", "x"))
+    for i in range(nrand // 20):                   # wave 7: two models alive at once, operations interleaved
+        for _ in range(2):
+            dt = rng.choice(DTS)
+            cases.append((dt, rand_history(rng, dt) if rng.chance(2, 3) else reconf_history(rng, dt), "rand-pair", "base"))
     chk.cov["rule"] = (f"all histories of length {L} (after create a, create b; followed by 4 flushing steps) over the alphabet {{create, step, "
                        "step with two sends from act(), delete oldest, configure (to the same count), send to newest undelayed / delay 1 / oldest "
                        f"delay 2 / to an id that does not exist}}, all of length {Lw} over that alphabet plus {{reset, a step whose act() creates an "
@@ -921,7 +1108,9 @@ def run(chk):
                        "creations / delete all + creations with events queued across it and random_events, 2/8 extended (handler tables, "
                        "states without table, unknown names, handlers raising KeyError / RuntimeError, state changes from handlers); a case is "
                        "(dt, history); non-trivial = at least one event handled after a deletion/configure/reset, or a delayed event handled, "
-                       "or a mid-step population change, or (extended) an event held / an aborted step")
+                       "or a mid-step population change, or (extended) an event held / an aborted step; wave 7: steps also through "
+                       "Model.run_step and whole Model.run() calls, sends from begin_round/end_round, negative and float receiver ids, negative "
+                       f"delays, and {nrand // 20} pairs of models alive at once with interleaved operations (rows: notes.coverage_rows)")
     chk.cov["exhaustive_histories"] = n_exh
     chk.cov["corpus_cases"] = n_corpus
     chk.cov["exhaustive"] = False
@@ -930,8 +1119,16 @@ def run(chk):
     dist = {"ops": {}, "dt": {}, "kind": {}, "sent": 0, "handled": 0, "discarded": 0, "steps": 0, "midstep_steps": 0,
             "aborted_steps": 0, "held_at_end": 0}
     xwit_bad = None
+    rows = {}
+    pre, partner_of, first_pair = {}, {}, {}
     for ci, (dt, ops, tag, mode) in enumerate(cases):
-        r = run_history(dt, ops) if mode == "base" else run_xhistory(dt, ops)
+        if tag == "rand-pair" and ci not in pre and ci + 1 < len(cases) and cases[ci + 1][2] == "rand-pair":
+            pre[ci], pre[ci + 1] = run_pair(dt, ops, cases[ci + 1][0], cases[ci + 1][1])
+            partner_of[ci], partner_of[ci + 1] = ci + 1, ci
+            rows["two-models-interleaved(pairs)"] = rows.get("two-models-interleaved(pairs)", 0) + 1
+    for ci, (dt, ops, tag, mode) in enumerate(cases):
+        r = pre[ci] if ci in pre else (run_history(dt, ops) if mode == "base" else run_xhistory(dt, ops))
+        row_counts(ops, dt, rows)
         index.append((len(req), dt, ops, mode))
         req += r["req"]; real += r["real"]
         for o in ops:
@@ -955,8 +1152,13 @@ def run(chk):
                 xwit_bad = (ops, got, X_WITNESS_EXPECT[ci - n_corpus - n_exh])
         for k, text in r["viol"]:
             if k not in first:
-                first[k] = (dt, ops, text, mode)
+                partner = (cases[partner_of[ci]][0], cases[partner_of[ci]][1]) if ci in partner_of else None
+                first[k] = (dt, ops, text, mode, partner)
+            if k not in first_pair and ci in partner_of:
+                first_pair[k] = (dt, ops, text, mode, (cases[partner_of[ci]][0], cases[partner_of[ci]][1]))
     chk.cov["input_distribution"] = dist
+    chk.notes["coverage_rows"] = dict(sorted(rows.items()))
+    chk.notes["same_event_object_enqueued_twice"] = probe_same_object_twice()
     # ---- delay -> steps lattice: Lean stepsOf vs exact fractions vs the real countdown
     lat = []
     for dt in DTS + ["0.125", "0.04", "0.025", "0.02", "0.01", "0.3", "0.15", "0.7", "2", "1.5"]:
@@ -1019,8 +1221,15 @@ def run(chk):
     if not chk.cov["samples"]:
         chk.cov["samples"].append({"dt": cases[0][0], "ops": show(cases[0][1])})
     # ---- decide
-    for key, (dt, ops, text, mode) in first.items():
+    for key, (dt, ops, text, mode, partner) in first.items():
         runner = run_history if mode == "base" else run_xhistory
+        alone = any(k == key for k, _ in runner(dt, ops)["viol"])
+        if not alone and partner is None and key in first_pair:       # state leaking between models: show it on a pair
+            dt, ops, text, mode, partner = first_pair[key]
+        if partner is not None and not alone:      # only with the second model alive: keep the pair
+            chk.add_finding(key, f"dt={dt}, history {show(ops)} interleaved with a second model (dt={partner[0]}, {show(partner[1])}): {text}",
+                            {"mode": "pair", "dt": dt, "ops": ops, "dt_b": partner[0], "ops_b": partner[1]})
+            continue
         small = shrink(dt, ops, key, runner)
         r = runner(dt, small)
         t = next((t for k, t in r["viol"] if k == key), text)
@@ -1029,7 +1238,8 @@ def run(chk):
         a, b, c, e = lat_bad
         chk.add_finding("delay-steps", f"handle_delayed_event keeps DelayedEvent(delay={a}) back for {c} steps with dt={b}; ceil(delay/dt) = {e}",
                         {"dt": b, "mode": "base", "ops": [["create", 0], ["send", 0, a, []]] + [["step", {}]] * (min(max(c, e), 3000) + 2)})
-    for name, keyname in (("routesById", "wrong-receiver"), ("delayStepsExact", "delay-steps"), ("requeueFifo", "same-step-order")):
+    for name, keyname in (("routesById", "wrong-receiver"), ("delayStepsExact", "delay-steps"), ("requeueFifo", "same-step-order"),
+                          ("negativeIdDropped", "wrong-receiver"), ("queuePerModel", "foreign-event")):
         if name == "routesById" and "receiver-lookup-raises" in first:
             continue
         if not facts[name] and keyname not in first and not (keyname == "delay-steps" and lat_bad):
@@ -1059,6 +1269,25 @@ def run(chk):
                              "request_context": allreq[max(start, diff - 10):diff + 1],
                              "model": model[diff] if diff < len(model) else None, "impl": exp[diff] if diff < len(exp) else None},
                             found_input=False)
+
+
+def probe_same_object_twice():
+    """Observation, not part of the statement's send scripts: the countdown of a DelayedEvent lives in the event object
+    (`event.delay` is rewritten every step), so ONE object enqueued twice counts down twice per step."""
+    try:
+        sim = Sim("1")
+        sim.m.create_agent("a", {})
+        from BPTK_Py import DelayedEvent
+        e = DelayedEvent("ev", 0, 0, 4, {"seq": 0, "then": [], "exc": None})
+        e.data["sim"] = sim.uid
+        sim.sent[0] = {"rid": 0, "delay": "4", "sent_at": 0, "name": 0, "exc": None}
+        sim.m.enqueue_event(e); sim.m.enqueue_event(e)
+        for k in range(7):
+            sim.step_no += 1
+            sim.m.scheduler.run_step(sim.m, 0, k, None, True)
+        return {"delay_steps": 4, "handled_in_steps": [h[0] for h in sim.handled], "expected_step_for_a_fresh_object": 5}
+    except Exception as ex:
+        return {"error": repr(ex)}
 
 
 def handled_of(r):
@@ -1162,6 +1391,11 @@ def replay(path):
         print("probes on the current tree:", f)
         return 0 if all(f.values()) else 1
     mode = r.get("mode", "base")
+    if mode == "pair":
+        ra, rb = run_pair(r["dt"], r["ops"], r["dt_b"], r["ops_b"])
+        print("pair of models, interleaved:", show(r["ops"]), "|", show(r["ops_b"]))
+        print("violations of the statement on the current tree:", ra["viol"], rb["viol"])
+        return 1 if (ra["viol"] or rb["viol"]) else 0
     res = (run_history if mode == "base" else run_xhistory)(r["dt"], r["ops"])
     print("dt:", r["dt"], "mode:", mode)
     print("ops:", show(r["ops"]))
